@@ -232,3 +232,12 @@ func (d vDirFS) ReadFile(name string) ([]byte, error) {
 }
 
 func model_os_DirFS(dir string) fs.FS { return vDirFS{dir} }
+
+// envWriteManifest: "a manifest file with this content is on disk" (model: the JSON channel
+// hands the value to OpenDir; natively the struct is marshalled with encoding/json).
+func envWriteManifest(dir string, m *manifestRoot) {
+	c := jsonCopy(m)
+	jsonArbitrary = &c
+	jsonArbitraryErr = false
+	envWriteFile(dir+"/"+manifestFilename, 0644, 100, "A0")
+}
